@@ -16,9 +16,9 @@
      "hp_zero_based"      phase --tag HP names a set by POS - 1
      "list_shifted"       the haplotag list reports the haplotype of the tag plus one
      "split_swapped"      split writes the H1 reads to the H2 output and vice versa
-     "tagphase_inverted"  haplotagphase lists the two alleles in the other order           *)
+     "tagphase_inverted"  haplotagphase lists the two alleles in the other order at every second site          *)
 EXTENDS Workflow, Json
-CONSTANTS N, NReads, MaxCmds, WorldSet, Broken, Cmds
+CONSTANTS N, NReads, MaxCmds, WorldSet, Broken, Cmds, TagOpts, Want, Caps
 VARIABLES fs, world
 vars == <<fs, world>>
 
@@ -51,7 +51,10 @@ FixedWorlds ==
       [truth |-> << << <<0, 1>>, <<1, 1>>, <<1, 0>>, <<0, 1>> >> >>, shapes |-> << Sh(1, 3, 1), Sh(4, 4, 1) >>, orient |-> FALSE],
       [truth |-> << << <<1, 0>>, <<1, 0>>, <<0, 1>>, <<0, 1>> >> >>, shapes |-> << Sh(1, 2, 2), Sh(2, 3, 1), Sh(3, 4, 2) >>, orient |-> TRUE],
       [truth |-> << << <<0, 1>>, <<0, 1>>, <<1, 1>>, <<1, 0>> >> >>, shapes |-> << Sh(1, 1, 1), Sh(2, 2, 2), Sh(3, 4, 1) >>, orient |-> TRUE] }
-Worlds == IF WorldSet = "all" THEN AllWorlds ELSE FixedWorlds
+OneWorld == { [truth |-> << << <<0, 1>>, <<1, 0>>, <<0, 1>>, <<1, 0>> >> >>, shapes |-> << Sh(1, 2, 1), Sh(3, 4, 2), Sh(2, 2, 2) >>, orient |-> TRUE] }
+TwoWorlds == { [truth |-> << << <<0, 1>>, <<1, 0>>, <<0, 1>>, <<1, 0>> >> >>, shapes |-> << Sh(1, 2, 1), Sh(3, 4, 2), Sh(2, 2, 2) >>, orient |-> TRUE],
+               [truth |-> << << <<0, 1>>, <<1, 1>>, <<1, 0>>, <<0, 1>> >> >>, shapes |-> << Sh(1, 3, 1), Sh(4, 4, 1) >>, orient |-> FALSE] }
+Worlds == CASE WorldSet = "all" -> AllWorlds [] WorldSet = "one" -> OneWorld [] WorldSet = "two" -> TwoWorlds [] OTHER -> FixedWorlds
 
 BamOf(w) == [n \in DOMAIN w.shapes |-> Aln(w.truth[1], w.shapes[n], n)]
 
@@ -86,7 +89,7 @@ MySplit(bam, list, disc) ==
 MyTagPhase(v, bam) ==
     IF Broken = "tagphase_inverted"
     THEN { [s \in DOMAIN w |-> [j \in DOMAIN w[s] |->
-              IF HasStmt(w[s][j].call) /\ ~HasStmt(v[s][j].call)
+              IF HasStmt(w[s][j].call) /\ ~HasStmt(v[s][j].call) /\ (j % 2) = 0
               THEN [w[s][j] EXCEPT !.call.gt = << @[2], @[1] >>] ELSE w[s][j]]] : w \in HaplotagPhaseDesign(v, bam) }
     ELSE HaplotagPhaseDesign(v, bam)
 
@@ -125,7 +128,7 @@ Init == /\ world \in Worlds
              @@ ("b" :> File("bam", "init", << >>, NoOpt, BamOf(world)))
 Next == /\ NCmds < MaxCmds
         /\ UNCHANGED world
-        /\ \/ \E f \in Ids("vcf"), b \in Ids("bam"), tag \in {"PS", "HP"} : Phase(f, b, tag)
+        /\ \/ \E f \in Ids("vcf"), b \in Ids("bam"), tag \in TagOpts : Phase(f, b, tag)
            \/ \E f \in Ids("vcf") : Unphase(f) \/ Stats(f)
            \/ \E f \in Ids("vcf"), g \in Ids("vcf") : Compare(f, g)
            \/ \E f \in Ids("vcf"), b \in Ids("bam") : Haplotag(f, b) \/ HaplotagPhase(f, b)
@@ -153,11 +156,24 @@ InvW8a == W8a(fs, All)
 InvW8b == W8b(fs, All)
 InvW9 == W9(fs, All)
 InvW10 == W10(fs, All, TRUE)
+InvW10b == W10b(fs, All, TRUE)
 InvW11 == W11(fs, All)
 (* sanity of the model itself: every file's arguments exist, every list is consistent *)
 InvClosed == \A i \in DOMAIN fs : \A n \in DOMAIN fs[i].args : fs[i].args[n] \in DOMAIN fs
 
 (* emission: a state with MaxCmds commands is one workflow (the commands without contents) *)
 Shape == [i \in DOMAIN fs |-> [kind |-> fs[i].kind, cmd |-> fs[i].cmd, args |-> fs[i].args, opt |-> fs[i].opt]]
-Emit == IF NCmds = MaxCmds THEN PrintT(<<"BEHAVIOUR", ToJson(Shape)>>) ELSE TRUE
+(* caps on the number of runs per command (state constraint PerCmd; only used to keep targeted emission runs small) *)
+AllCmdNames == {"phase", "unphase", "stats", "compare", "haplotag", "split", "haplotagphase"}
+CapsNone == [c \in AllCmdNames |-> 99]
+Caps1 == [c \in AllCmdNames |-> 1]
+Caps2 == [c \in AllCmdNames |-> 2]
+CapsR == [c \in AllCmdNames |-> IF c \in {"stats", "compare"} THEN 2 ELSE 1]
+CountCmd(c) == Cardinality({ i \in DOMAIN fs : fs[i].cmd = c /\ fs[i].kind # "list" })
+PerCmd == \A c \in Cmds : CountCmd(c) <= Caps[c]
+
+(* Want = the invariants the emitted workflows have to exercise ({} = no condition) *)
+Emit == IF NCmds = MaxCmds /\ (Want = {} \/ \E nm \in Want : Live(nm, fs)) THEN PrintT(<<"BEHAVIOUR", ToJson(Shape)>>) ELSE TRUE
+(* non-vacuity, to be VIOLATED: some reachable workflow exercises invariant nm *)
+NeverLive == \A nm \in Want : ~Live(nm, fs)
 =============================================================================
